@@ -95,7 +95,7 @@ let str_perr = function
   | PExpectedBracket -> "PExpectedBracket" | PUnknownConversion -> "PUnknownConversion" | PUnexpectedOpen -> "PUnexpectedOpen"
 let str_ferr = function
   | FTooFew -> "FTooFew" | FOutOfRange -> "FOutOfRange" | FNotGiven -> "FNotGiven"
-  | FUnusedNumbered -> "FUnusedNumbered" | FUnusedNamed -> "FUnusedNamed"
+  | FUnusedNumbered -> "FUnusedNumbered" | FUnusedNamed -> "FUnusedNamed" | FMix -> "FMix"
 let rec list_init_seq k f = if k <= 0 then [] else let x = f () in x :: list_init_seq (k - 1) f
 
 let rec fobj () =
